@@ -74,7 +74,7 @@ EXPLANATION = (
     "to_dict() output (per-clone log_p/log_r, root vector, log_p, log_p_one, labels), the model's trace loop run on the real "
     "chain's per-iteration trees and concentration draws (entry dicts incl. relabelled names and _data order, alpha, log_p_one), "
     "and the schedule under a programmable clock.")
-RULE = ("dict (510 quick / 4010 thorough): data sets of 3-8 exact dyadic data points (1-2 samples, grid 3-5, outlier prior 0 or 1/4), edit histories of 0-25 "
+RULE = ("dict (510 quick / 12010 thorough, a third of the thorough ones with 6-11 data points and histories of 20-60 ops): data sets of 3-8 exact dyadic data points (1-2 samples, grid 3-5, outlier prior 0 or 1/4), edit histories of 0-25 "
         "ops from {place in existing clone / new clone above a subset of roots / outlier, move a data point, prune a subtree "
         "(parked or regrafted under a random clone or the root), relabel_nodes, copy, dict round trip, update}, then 4 routes x "
         "3-6 further lockstep edits (always including relabel + create_root_node so a freed graph index is re-allocated) and "
@@ -199,12 +199,16 @@ def dict_fingerprint(d):
 class World:
     """A tree handle plus the subtrees pruned from it and not (yet) re-attached."""
 
-    def __init__(self, tree, parked=None):
+    def __init__(self, tree, parked=None, smc_ok=True):
         self.tree = tree
         self.parked = list(parked or [])
+        # clones are created (create_root_node names them num_nodes) only in trees built by placements alone or
+        # relabelled since the last prune / graft, as in the samplers (`Legal` of Proofs/StoreInv.lean); which names
+        # survive a prune depends on the names relabel_nodes handed out, i.e. on the stored child order
+        self.smc_ok = smc_ok
 
     def clone(self, tree):
-        return World(tree, [p.copy() for p in self.parked])
+        return World(tree, [p.copy() for p in self.parked], self.smc_ok)
 
 
 def _is_ref(x):
@@ -263,15 +267,18 @@ def apply_op(w, op, data):
         sub = t.get_subtree(op[1])
         t.remove_subtree(sub)
         w.parked.append(sub)
+        w.smc_ok = False
     elif k == "graft":
         sub = w.parked.pop(op[1])
         t.add_subtree(sub, op[2])
+        w.smc_ok = False
     elif k == "prune_whole":
         sub = t.get_subtree(t.root_node_name)
         t.remove_subtree(sub)
         w.parked.append(sub)
     elif k == "relabel":
         t.relabel_nodes()
+        w.smc_ok = True
     elif k == "copy":
         w.tree = t.copy()
     elif k == "rt":
@@ -287,6 +294,11 @@ def placed(w):
     for p in w.parked:
         s |= set(p.labels)
     return s
+
+
+def dense(t):
+    """names are exactly 0..K-1: a statement about the *set* of names, so it holds of a copy whose names are permuted too"""
+    return sorted(t.nodes, key=name_key) == list(range(t.get_number_of_nodes()))
 
 
 def gen_op(rnd, w, n, outliers_on, force=None):
@@ -305,12 +317,12 @@ def gen_op(rnd, w, n, outliers_on, force=None):
             return ("add", dp, rnd.choice(nodes))
         if outliers_on and r < 0.42:
             return ("out", dp)
-        if t.get_number_of_nodes() in nodes:  # create_root_node would re-use a live name (never done by a sampler)
-            return ("add", dp, rnd.choice(nodes))
+        if not (w.smc_ok and dense(t)):  # create_root_node names the clone num_nodes: the samplers only create clones in trees whose
+            return ("add", dp, rnd.choice(nodes))  # names are 0..K-1 (`Legal` / `Dense` of Proofs/StoreInv.lean)
         return ("new", [dp], sorted(rnd.sample(t.roots, rnd.randint(0, len(t.roots))), key=name_key))
     if kind == "new":
-        if not free or t.get_number_of_nodes() in nodes:
-            return None  # create_root_node names the clone num_nodes: only legal when that name is free (after relabel)
+        if not free or not (w.smc_ok and dense(t)):
+            return None  # only legal when the names are 0..K-1 (after relabel_nodes or pure SMC placements)
         dp = rnd.choice(free)
         roots = t.roots
         return ("new", [dp], sorted(rnd.sample(roots, rnd.randint(0, len(roots))), key=name_key))
@@ -921,7 +933,7 @@ class StubMove:
         r = rnd.random()
         if self.out and r < 0.25:
             t.add_data_point_to_outliers(d)
-        elif r < 0.5 and t.get_number_of_nodes() not in t.nodes:  # the name create_root_node will use is free
+        elif r < 0.5 and dense(t):  # names are 0..K-1, so the name create_root_node will use is free
             t.create_root_node(children=rnd.sample(t.roots, rnd.randint(0, len(t.roots))), data=[d])
         else:
             t.add_data_point_to_node(d, rnd.choice(t.nodes))
@@ -1104,8 +1116,10 @@ def check(ctx, case):
 
 
 # ------------------------------------------------------------------------------- case generation
-def _dict_case(rnd, n=None, length=None, op=None, ops=None, G=None, S=None):
-    n = n or rnd.randint(3, 8)
+def _dict_case(rnd, n=None, length=None, op=None, ops=None, G=None, S=None, big=False):
+    n = n or (rnd.randint(6, 11) if big else rnd.randint(3, 8))
+    if big and length is None:
+        length = rnd.choice([20, 40, 60])
     op = op if op is not None else rnd.choice(["0", "1/4", "1/4"])
     ds = gen_dataset(rnd, n, S=S or rnd.choice([1, 1, 2]), G=G or rnd.randint(3, 5), bits=3, outlier_prob=Fraction(op))
     if ops is None:
@@ -1218,10 +1232,10 @@ def _cli_cases(rnd, tier):
 def cases(tier, rnd):
     out = []
     out += _cli_cases(rnd, tier)  # slow ones first so they land on different workers
-    chains = _chain_cases(rnd, 72 if tier == "quick" else 360)
+    chains = _chain_cases(rnd, 72 if tier == "quick" else 1200)
     out += chains
     out += _corner_dicts(rnd)
-    out += [_dict_case(rnd) for _ in range(500 if tier == "quick" else 4000)]
+    out += [_dict_case(rnd, big=(tier == "thorough" and i % 3 == 0)) for i in range(500 if tier == "quick" else 12000)]
     out += _loop_grid(rnd, tier)
     return out
 
